@@ -357,3 +357,62 @@ Proof.
   - unfold cap_text. cbn [fst snd]. replace (6 + tlen (dec n) - 6) with (tlen (dec n)) by lia.
     rewrite Es. change 6 with (tlen ref_prefix). rewrite skipn_N_app, firstn_N_app. reflexivity.
 Qed.
+
+(* The same for EVERY accepted prefix, not only the rendering of a number: whatever 1..10 ASCII
+   digits stand between the prefix and the bracket (leading zeros included), the documented
+   regex matches at offset 0 and its group 1 is exactly those digits. *)
+Theorem documented_regex_digits ds rest :
+  ds <> [] -> tlen ds <= 10 -> forallb is_ascii_digit ds = true ->
+  exists c, captures re_documented (ref_prefix ++ ds ++ [93] ++ rest) = Some c
+            /\ get_cap c 1 = Some (6, 6 + tlen ds)
+            /\ cap_text (ref_prefix ++ ds ++ [93] ++ rest) (6, 6 + tlen ds) = ds
+            /\ get_cap c 0 = Some (0, 6 + tlen ds + 1).
+Proof.
+  intros Hne Hlen Hall.
+  assert (Hpos : 1 <= tlen ds).
+  { destruct ds as [|d ds']; [contradiction|]. cbn [tlen]. lia. }
+  unfold captures, re_documented.
+  remember (ref_prefix ++ ds ++ [93] ++ rest) as s eqn:Es.
+  assert (Hm : m (RCat (RLit [91; 114; 101; 102; 58; 32])
+                  (RCat (RCap 1 (RRep 1 (Some 10) true (RClass [(48, 57)]))) (RLit [93])))
+                 (fun st => Some (set_cap (rcaps st) 0 (0, ridx st))) (mkR s 0 [])
+               = Some [(1, (6, 6 + tlen ds)); (0, (0, 6 + tlen ds + 1))]).
+  { rewrite m_cat, m_lit. cbn [rrem ridx rcaps]. fold ref_prefix. rewrite Es, strip_prefix_refl.
+    change (0 + tlen ref_prefix) with 6.
+    rewrite m_cat, m_cap, m_rep. cbn [rrem ridx rcaps]. fold digit_class.
+    rewrite rep_class_greedy.
+    - change (10 - 0) with 10.
+      rewrite (span_class_exact digit_class ds ([93] ++ rest) 10);
+        [|now rewrite forallb_digit_class|assumption|reflexivity].
+      rewrite N.add_0_l.
+      destruct (N.leb_spec 1 (tlen ds)) as [_|Hbad]; [|lia].
+      cbn [app rrem ridx rcaps]. rewrite lit93_on. change (93 =? 93) with true. cbv iota.
+      cbn [rcaps ridx set_cap]. change (1 =? 0) with false. cbv iota. cbn [set_cap]. reflexivity.
+    - intros st c r Hrem Hc. destruct st as [rm ix cp0]. cbn [rrem ridx rcaps] in *. subst rm.
+      rewrite lit93_on. destruct (N.eqb_spec 93 c) as [<-|]; [discriminate Hc|reflexivity].
+    - cbn [length]. lia.
+    - lia. }
+  exists [(1, (6, 6 + tlen ds)); (0, (0, 6 + tlen ds + 1))].
+  repeat split.
+  - destruct s as [|c0 s0]; cbn [search_from]; rewrite Hm; reflexivity.
+  - unfold cap_text. cbn [fst snd]. replace (6 + tlen ds - 6) with (tlen ds) by lia.
+    rewrite Es. change 6 with (tlen ref_prefix). rewrite skipn_N_app, firstn_N_app. reflexivity.
+Qed.
+
+(* Agreement of the two readers on every message: whenever Breadlog treats a message as
+   referenced with number n, the documented regex matches it at offset 0 and parsing its
+   group 1 as a u32 gives the same n. *)
+Theorem documented_regex_agrees s n :
+  extract_reference the_params s = Some n ->
+  exists c se, captures re_documented s = Some c
+               /\ get_cap c 1 = Some se
+               /\ parse_u32 (cap_text s se) = Some n
+               /\ exists e, get_cap c 0 = Some (0, e).
+Proof.
+  intros H. apply extract_reference_iff in H.
+  destruct H as (ds & rest & -> & Hne & Hlen & Hall & Hval & Hle).
+  destruct (documented_regex_digits ds rest Hne Hlen Hall) as (c & Hc & H1 & Ht & H0).
+  exists c, (6, 6 + tlen ds). repeat split; try assumption.
+  - rewrite Ht. apply parse_u32_digits; [assumption|assumption|split; assumption].
+  - eexists; exact H0.
+Qed.
